@@ -9,6 +9,8 @@ package main
 
 import (
 	"bufio"
+	"crypto/sha1"
+	"encoding/hex"
 	"encoding/json"
 	"fmt"
 	"os"
@@ -109,8 +111,16 @@ func c09FnJob(name string, kinds []string) c09Job {
 		Ident: "fn:" + grp, Group: grp, Tuple: strings.Join(kinds, ","), Big: big}
 }
 
+// identity of formula-text jobs: the deterministic streams (deep nesting, self references,
+// witnesses) are identified by the exact formula (hash); random mutations by their class and,
+// through the outcome part of the signature, by panic site.
 func c09TxtJob(formula, class string) c09Job {
-	return c09Job{Op: "txt " + hx(formula), Formula: formula, Class: "txt/" + class, Ident: "txt"}
+	id := "txt/" + class
+	if class != "mutation" {
+		h := sha1.Sum([]byte(formula))
+		id += "#" + hex.EncodeToString(h[:4])
+	}
+	return c09Job{Op: "txt " + hx(formula) + " " + class, Formula: formula, Class: "txt/" + class, Ident: id}
 }
 
 func c09JobOfLine(line string) (c09Job, bool) {
@@ -123,8 +133,12 @@ func c09JobOfLine(line string) (c09Job, bool) {
 		}
 		return c09FnJob(w[1], w[2:]), true
 	}
-	if len(w) == 2 && w[0] == "txt" {
-		return c09TxtJob(unhx(w[1]), "replay"), true
+	if (len(w) == 2 || len(w) == 3) && w[0] == "txt" {
+		class := "replay"
+		if len(w) == 3 {
+			class = w[2]
+		}
+		return c09TxtJob(unhx(w[1]), class), true
 	}
 	return c09Job{}, false
 }
